@@ -17,7 +17,10 @@ Theorem c17_source_facts :
   Extracted.nextMessage_resets_before_read = true /\ Extracted.ping_handler_answers_pong = true /\
   Extracted.default_client_ping_timeout = (5000000000, 30000000000) /\ Extracted.default_server_ping = 5000000000 /\
   (* a redialled connection gets its keepalive handlers after it has been installed (they are bound to c.conn) *)
-  Extracted.redial_sets_up_pings_after_swap = true.
+  Extracted.redial_sets_up_pings_after_swap = true /\
+  (* the configured timeout and ping intervals are what the connection uses: the options store their argument, nothing else *)
+  Extracted.option_bodies = [("WithTimeout", ["c.timeout = d"]); ("WithPingInterval", ["c.pingInterval = d"]);
+                             ("WithServerPingInterval", ["c.pingInterval = d"])]%string.
 Proof. repeat split; reflexivity. Qed.
 
 (* healthy link: for every trace (calls and idle periods of any length: they do not appear at all) in which no stretch
